@@ -56,9 +56,17 @@ def accessors(h):
     target = h
     while target.name == "Select":  # a Select forwards unknown attributes to its cut
         target = target.cut
-    huge = target.name == "SparselyBin" and bool(target.bins) and (max(target.bins) - min(target.bins)) > 5000
-    for name in ("bin_entries", "bin_edges", "bin_centers", "num_bins", "bin_width", "bin_labels", "n_bins", "n_dim", "datatype", "mpv", "size", "keys", "values", "indexes"):
-        if huge and name in dense:
+    # (indexes filled by fill.numpy are numpy.int64: subtract as Python ints, the sentinel index of an infinite datum
+    # would overflow)
+    huge = target.name == "SparselyBin" and bool(target.bins) and (int(max(target.bins)) - int(min(target.bins))) > 5000
+    # the 2-D views (grid, limits, projections) exist on binning-of-binning histograms; their grids are dense as well
+    grid = ("x_lim", "y_lim", "xy_ranges_grid", "project_on_x", "project_on_y")
+    huge2 = huge
+    if target.name == "SparselyBin":
+        inner = [i for v in target.bins.values() if v.name == "SparselyBin" for i in v.bins]
+        huge2 = huge or (bool(inner) and int(max(inner)) - int(min(inner)) > 2000)
+    for name in ("bin_entries", "bin_edges", "bin_centers", "num_bins", "bin_width", "bin_labels", "n_bins", "n_dim", "datatype", "mpv", "size", "keys", "values", "indexes", *grid):
+        if (huge and name in dense) or (huge2 and name in grid):
             continue
         try:
             a = getattr(h, name)
@@ -276,6 +284,7 @@ def simple_rows(draw, n_max=6, none_cats=False):
 
 def strategy(tier):
     names = sorted(ctor_table()) if lib() else []
+    names += [n for n in names if n.startswith("TwoDimensionally")] * 3  # the only constructors with 2-D read views
     dfnames = sorted(df_table())
     topts = gen.TreeOpts(max_depth=2, bag_ranges=("N", "S"), flavours=("lambda", "str"))
 
@@ -350,6 +359,12 @@ def run_ctor(case):
     fill_rows(b, case["rows2"], case["numpy"])
     fill_rows(c, case["rows2"], not case["numpy"])
     require(snapshot(a) == da, "interference", f"filling the second/third {case['ctor']} changed the first", sig)
+    # reading never changes: every read accessor the object has (1-D and 2-D views), twice
+    for h_, what_ in ((a, "first"), (b, "second")):
+        snap = snapshot(h_)
+        for _ in range(2):
+            accessors(h_)
+            require(snapshot(h_) == snap, "accessor-mutated", lambda: f"reading the views of the {what_} {case['ctor']} changed it: {norm.fmt(norm.diff(snap[0], snapshot(h_)[0], norm.BITEXACT))}", sig)  # noqa: B023
     return {"nontrivial": True, "labels": ["mode:ctor", "ctor:" + case["ctor"]]}
 
 
